@@ -631,7 +631,7 @@ func (e *Env) RSharedState() {
 						return true
 					})
 					lhs := types.ExprString(se)
-					good := false
+					good, constFalse := false, false
 					if target != nil {
 						if pc, okp := pathCond(c, fd.Body.List, target); okp {
 							for _, cj := range splitTopAnd(pc) {
@@ -639,10 +639,13 @@ func (e *Env) RSharedState() {
 								if cj == lhs+" == nil" || cj == "nil == "+lhs {
 									good = true
 								}
+								if cj == "false" {
+									constFalse = true
+								}
 							}
 						}
 					}
-					e.Run.Check("R-SHARED", fmt.Sprintf("%s gives %s a default only when it is nil", load.FuncName(fd), f), e.Prog.Pos(at), good,
+					e.Run.Check("R-SHARED", fmt.Sprintf("%s gives %s a default only when it is nil", load.FuncName(fd), f), e.Prog.Pos(at), good && !constFalse,
 						"the file set the caller supplied is overwritten (or a missing one is not created): positions of the restored file land in another file set than the caller's, or the nil file set is dereferenced")
 				}
 			}
